@@ -22,10 +22,12 @@ type NetConn struct {
 	Writes      int
 	WriteErrAt  int
 	ReadErrAt   int
-	EOFErr      error // error returned at end of input (default io.EOF)
-	EOFWithData bool  // the read that delivers the last input bytes also returns the end-of-input error
-	MaxReadPos  int   // highest input position ever handed out
-	ReadLimit   int   // if > 0: assertion boundary; reads that start at or beyond it are counted
+	EOFErr      error  // error returned at end of input (default io.EOF)
+	EOFWithData bool   // the read that delivers the last input bytes also returns the end-of-input error
+	OnWrite     func() // called at the start of every Write (e.g. zz.Slow)
+	OnRead      func() // called at the start of every Read
+	MaxReadPos  int    // highest input position ever handed out
+	ReadLimit   int    // if > 0: assertion boundary; reads that start at or beyond it are counted
 	ReadsBeyond int
 }
 
@@ -36,6 +38,9 @@ func NewNetConn(in []byte) *NetConn {
 var ErrInjected = errors.New("zz: injected I/O error")
 
 func (c *NetConn) Read(b []byte) (int, error) {
+	if c.OnRead != nil {
+		c.OnRead()
+	}
 	idx := c.Reads
 	c.Reads++
 	if c.ReadErrAt >= 0 && idx >= c.ReadErrAt {
@@ -79,6 +84,9 @@ func (c *NetConn) Read(b []byte) (int, error) {
 }
 
 func (c *NetConn) Write(b []byte) (int, error) {
+	if c.OnWrite != nil {
+		c.OnWrite()
+	}
 	idx := c.Writes
 	c.Writes++
 	if c.WriteErrAt >= 0 && idx >= c.WriteErrAt {
